@@ -87,22 +87,28 @@ theorem fcgood_set {O : Oracles} {fn : Bytes} {fc : FC} (hg : FCGood O fn fc) (c
 
 /-! ### the walk over `order` -/
 
-theorem walk_spec (O : Oracles) (fn : Bytes) (config : List Cfg) (hnd : (config.map Cfg.key).Nodup)
-    (hcfg : ∀ c ∈ config, CfgGood O fn c) :
-    ∀ (order : List Bytes) (fc : FC) (m : CMap) (u : UnitMap) (n : Nat),
-      order.Nodup → (∀ k ∈ order, (fc.get k).isSome) → fc.keys.Nodup → Link fc m → FCGood O fn fc →
+/-- The walk: (1) the new `fileConfig` holds, for every known key, what the record's
+configuration holds for it; (2) `order` loses exactly the deleted keys; (3) keys stay distinct;
+(4) a reader that held the file part of the old `fileConfig` holds, after the printed lines, the
+file part of the new one. (4) alone depends on what the reader makes of the lines. -/
+theorem walk_spec (O : Oracles) (fn : Bytes) (config : List Cfg) (hnd : (config.map Cfg.key).Nodup) :
+    ∀ (order : List Bytes) (fc : FC),
+      order.Nodup → (∀ k ∈ order, (fc.get k).isSome) → fc.keys.Nodup →
       (∀ k, ((walk config order fc).2.1).get k = if k ∈ order then cfgGet config k else fc.get k) ∧
       (walk config order fc).1 = order.filter (fun k => (cfgGet config k).isSome) ∧
-      (walk config order fc).2.1.keys.Nodup ∧ FCGood O fn (walk config order fc).2.1 ∧
-      ∃ m', runLines O fn m u n (walk config order fc).2.2 = (m', u, []) ∧
-        Link (walk config order fc).2.1 m' := by
+      (walk config order fc).2.1.keys.Nodup ∧
+      ∀ (m : CMap) (u : UnitMap), (∀ c ∈ config, CfgGood O fn c) → Link fc m → FCGood O fn fc →
+        FCGood O fn (walk config order fc).2.1 ∧
+        ∃ m', (∀ n, runLines O fn m u n (walk config order fc).2.2 = (m', u, [])) ∧
+          Link (walk config order fc).2.1 m' := by
   intro order
   induction order with
   | nil =>
-    intro fc m u n _ _ hk hl hg
-    exact ⟨fun k => by simp [walk], by simp [walk], hk, hg, m, by simp [walk, runLines], hl⟩
+    intro fc _ _ hk
+    exact ⟨fun k => by simp [walk], by simp [walk], hk, fun m u _ hl hg =>
+      ⟨hg, m, fun n => by simp [walk, runLines], hl⟩⟩
   | cons key rest ih =>
-    intro fc m u n hndo hin hkn hl hg
+    intro fc hndo hin hkn
     simp only [List.nodup_cons] at hndo
     have hkin := hin key List.mem_cons_self
     obtain ⟨⟨hv, hf⟩, hfc⟩ := Option.isSome_iff_exists.1 hkin
@@ -119,46 +125,45 @@ theorem walk_spec (O : Oracles) (fn : Bytes) (config : List Cfg) (hnd : (config.
             delLine key :: (walk config rest (fc.erase key)).2.2) := by
         simp only [walk, hfind, hc]
       have hcg : cfgGet config key = none := by rw [cfgGet_eq, hc]; rfl
-      -- the reader's map after the deletion line
-      have hline : ∃ m1, lineRecs O fn m u n (delLine key) = (m1, u, []) ∧ Link (fc.erase key) m1 := by
-        have hgk := hg key hv hf hfc
-        by_cases hff : hf = true
-        · subst hff
-          simp only [↓reduceIte] at hgk
-          exact ⟨m.del key, hgk m u n, link_erase hl key⟩
-        · have hff' : hf = false := by simpa using hff
-          subst hff'
-          simp only [Bool.false_eq_true, ↓reduceIte] at hgk
-          rcases hgk with hd | hi
-          · exact ⟨m.del key, hd m u n, link_erase hl key⟩
-          · exact ⟨m, hi m u n, link_erase_inert hl key hv hfc⟩
-      obtain ⟨m1, hm1, hl1⟩ := hline
-      obtain ⟨ha, hb, hkn', hg', m', hr, hl'⟩ := ih (fc.erase key) m1 u (n + 1) hndo.2
-        (hin' _ (fun k hk => by rw [FC.get_erase]; simp [hk])) (FC.nodup_erase hkn key) hl1
-        (fcgood_erase hg key)
+      obtain ⟨ha, hb, hkn', hread⟩ := ih (fc.erase key) hndo.2
+        (hin' _ (fun k hk => by rw [FC.get_erase]; simp [hk])) (FC.nodup_erase hkn key)
       rw [hw]
-      refine ⟨fun k => ?_, ?_, hkn', hg', m', ?_, hl'⟩
+      refine ⟨fun k => ?_, ?_, hkn', fun m u hcfg hl hg => ?_⟩
       · simp only [ha k, List.mem_cons, FC.get_erase]
         by_cases hk : k = key
         · subst hk; simp [hndo.1, hcg]
         · simp [hk]
       · simp only [hb, List.filter_cons, hcg]; rfl
-      · simp only [runLines, hm1, hr, List.nil_append]
+      · -- the reader's map after the deletion line
+        have hline : ∃ m1, (∀ n, lineRecs O fn m u n (delLine key) = (m1, u, [])) ∧ Link (fc.erase key) m1 := by
+          have hgk := hg key hv hf hfc
+          by_cases hff : hf = true
+          · subst hff
+            simp only [↓reduceIte] at hgk
+            exact ⟨m.del key, fun n => hgk m u n, link_erase hl key⟩
+          · have hff' : hf = false := by simpa using hff
+            subst hff'
+            simp only [Bool.false_eq_true, ↓reduceIte] at hgk
+            rcases hgk with hd | hi
+            · exact ⟨m.del key, fun n => hd m u n, link_erase hl key⟩
+            · exact ⟨m, fun n => hi m u n, link_erase_inert hl key hv hfc⟩
+        obtain ⟨m1, hm1, hl1⟩ := hline
+        obtain ⟨hg', m', hr, hl'⟩ := hread m1 u hcfg hl1 (fcgood_erase hg key)
+        refine ⟨hg', m', fun n => ?_, hl'⟩
+        simp only [runLines, hm1 n, hr (n + 1), List.nil_append]
     | some cfg =>
       have hck : cfg.key = key := by simpa using List.find?_some hc
       have hcm : cfg ∈ config := List.mem_of_find?_eq_some hc
       have hcg : cfgGet config key = some (cfg.value, cfg.file) := by rw [cfgGet_eq, hc]; rfl
-      have hgood := hcfg cfg hcm
       by_cases hsame : (hv == cfg.value && hf == cfg.file) = true
       · -- unchanged
         have hw : walk config (key :: rest) fc =
             (key :: (walk config rest fc).1, (walk config rest fc).2.1, (walk config rest fc).2.2) := by
           simp only [walk, hfind, hc, hfc, Option.getD_some, hsame, ↓reduceIte]
         simp only [Bool.and_eq_true, beq_iff_eq] at hsame
-        obtain ⟨ha, hb, hkn', hg', m', hr, hl'⟩ := ih fc m u n hndo.2
-          (hin' _ (fun k _ => rfl)) hkn hl hg
+        obtain ⟨ha, hb, hkn', hread⟩ := ih fc hndo.2 (hin' _ (fun k _ => rfl)) hkn
         rw [hw]
-        refine ⟨fun k => ?_, ?_, hkn', hg', m', hr, hl'⟩
+        refine ⟨fun k => ?_, ?_, hkn', fun m u hcfg hl hg => hread m u hcfg hl hg⟩
         · simp only [ha k, List.mem_cons]
           by_cases hk : k = key
           · subst hk; simp [hndo.1, hcg, hfc, hsame.1, hsame.2]
@@ -172,42 +177,323 @@ theorem walk_spec (O : Oracles) (fn : Bytes) (config : List Cfg) (hnd : (config.
               (if cfg.file then [kvLine key cfg.value] else if hf then [delLine key] else []) ++
                 (walk config rest (fc.set key cfg.value cfg.file)).2.2) := by
           simp only [walk, hfind, hc, hfc, Option.getD_some, hsame', Bool.false_eq_true, ↓reduceIte]
-        -- the reader's map after the line(s)
-        have hline : ∃ m1, runLines O fn m u n
-              (if cfg.file then [kvLine key cfg.value] else if hf then [delLine key] else []) = (m1, u, []) ∧
-            Link (fc.set key cfg.value cfg.file) m1 := by
-          unfold CfgGood at hgood
-          by_cases hcf : cfg.file = true
-          · simp only [hcf, ↓reduceIte] at hgood ⊢
-            rw [hck] at hgood
-            exact ⟨m.assign key cfg.value true, by simp [runLines, hgood.1 m u n],
-              link_set_file hl key cfg.value hgood.2.1⟩
-          · have hcf' : cfg.file = false := by simpa using hcf
-            simp only [hcf', Bool.false_eq_true, ↓reduceIte]
-            by_cases hff : hf = true
-            · subst hff
-              have hgk := hg key hv true hfc
-              simp only [↓reduceIte] at hgk ⊢
-              exact ⟨m.del key, by simp [runLines, hgk m u n], link_set_internal_del hl key cfg.value⟩
-            · have hff' : hf = false := by simpa using hff
-              subst hff'
-              simp only [Bool.false_eq_true, ↓reduceIte]
-              exact ⟨m, by simp [runLines], link_set_internal_same hl key cfg.value hv hfc⟩
-        obtain ⟨m1, hm1, hl1⟩ := hline
-        have hgs : FCGood O fn (fc.set key cfg.value cfg.file) := by
-          have := fcgood_set hg cfg hgood
-          rw [hck] at this; exact this
-        obtain ⟨ha, hb, hkn', hg', m', hr, hl'⟩ := ih (fc.set key cfg.value cfg.file) m1 u
-          (n + (if cfg.file then [kvLine key cfg.value] else if hf then [delLine key] else []).length) hndo.2
-          (hin' _ (fun k hk => by rw [FC.get_set]; simp [hk])) (FC.nodup_set hkn key _ _) hl1 hgs
+        obtain ⟨ha, hb, hkn', hread⟩ := ih (fc.set key cfg.value cfg.file) hndo.2
+          (hin' _ (fun k hk => by rw [FC.get_set]; simp [hk])) (FC.nodup_set hkn key _ _)
         rw [hw]
-        refine ⟨fun k => ?_, ?_, hkn', hg', m', ?_, hl'⟩
+        refine ⟨fun k => ?_, ?_, hkn', fun m u hcfg hl hg => ?_⟩
         · simp only [ha k, List.mem_cons, FC.get_set]
           by_cases hk : k = key
           · subst hk; simp [hndo.1, hcg]
           · simp [hk]
         · simp only [hb, List.filter_cons, hcg, Option.isSome_some, ↓reduceIte]
-        · rw [runLines_append]
-          simp only [hm1, hr, List.nil_append]
+        · have hgood := hcfg cfg hcm
+          -- the reader's map after the line(s)
+          have hline : ∃ m1, (∀ n, runLines O fn m u n
+                (if cfg.file then [kvLine key cfg.value] else if hf then [delLine key] else []) = (m1, u, [])) ∧
+              Link (fc.set key cfg.value cfg.file) m1 := by
+            unfold CfgGood at hgood
+            by_cases hcf : cfg.file = true
+            · simp only [hcf, ↓reduceIte] at hgood ⊢
+              rw [hck] at hgood
+              exact ⟨m.assign key cfg.value true, fun n => by simp [runLines, hgood.1 m u n],
+                link_set_file hl key cfg.value hgood.2.1⟩
+            · have hcf' : cfg.file = false := by simpa using hcf
+              simp only [hcf', Bool.false_eq_true, ↓reduceIte]
+              by_cases hff : hf = true
+              · subst hff
+                have hgk := hg key hv true hfc
+                simp only [↓reduceIte] at hgk ⊢
+                exact ⟨m.del key, fun n => by simp [runLines, hgk m u n], link_set_internal_del hl key cfg.value⟩
+              · have hff' : hf = false := by simpa using hff
+                subst hff'
+                simp only [Bool.false_eq_true, ↓reduceIte]
+                exact ⟨m, fun n => by simp [runLines], link_set_internal_same hl key cfg.value hv hfc⟩
+          obtain ⟨m1, hm1, hl1⟩ := hline
+          have hgs : FCGood O fn (fc.set key cfg.value cfg.file) := by
+            have := fcgood_set hg cfg hgood
+            rw [hck] at this; exact this
+          obtain ⟨hg', m', hr, hl'⟩ := hread m1 u hcfg hl1 hgs
+          refine ⟨hg', m', fun n => ?_, hl'⟩
+          rw [runLines_append]
+          simp only [hm1 n, hr, List.nil_append]
+
+/-! ### new keys -/
+
+theorem cfgGet_isSome_iff (config : List Cfg) (k : Bytes) :
+    (cfgGet config k).isSome ↔ k ∈ config.map Cfg.key := by
+  rw [cfgGet_eq, Option.isSome_map, List.find?_isSome]
+  simp only [List.mem_map, beq_iff_eq]
+
+theorem cfgGet_cons (c : Cfg) (cs : List Cfg) (k : Bytes) :
+    cfgGet (c :: cs) k = if c.key = k then some (c.value, c.file) else cfgGet cs k := by
+  simp only [cfgGet_eq, List.find?_cons]
+  by_cases h : c.key = k
+  · simp [h]
+  · have : (c.key == k) = false := by simpa using h
+    simp [this, h]
+
+theorem newKeys_spec (O : Oracles) (fn : Bytes) :
+    ∀ (cs : List Cfg) (fc : FC) (ord : List Bytes),
+      (cs.map Cfg.key).Nodup → fc.keys.Nodup →
+      (∀ k, (newKeys cs fc ord).1.get k = if (fc.get k).isSome then fc.get k else cfgGet cs k) ∧
+      (newKeys cs fc ord).2.1 = ord ++ (cs.filter (fun c => (fc.get c.key).isNone)).map Cfg.key ∧
+      (newKeys cs fc ord).1.keys.Nodup ∧
+      ∀ (m : CMap) (u : UnitMap), (∀ c ∈ cs, CfgGood O fn c) → Link fc m → FCGood O fn fc →
+        FCGood O fn (newKeys cs fc ord).1 ∧
+        ∃ m', (∀ n, runLines O fn m u n (newKeys cs fc ord).2.2 = (m', u, [])) ∧
+          Link (newKeys cs fc ord).1 m' := by
+  intro cs
+  induction cs with
+  | nil =>
+    intro fc ord _ hk
+    refine ⟨fun k => ?_, by simp [newKeys], hk, fun m u _ hl hg =>
+      ⟨hg, m, fun n => by simp [newKeys, runLines], hl⟩⟩
+    cases h : fc.get k <;> simp [newKeys, h, cfgGet_eq]
+  | cons c cs ih =>
+    intro fc ord hnd hkn
+    simp only [List.map_cons, List.nodup_cons] at hnd
+    by_cases hhas : (fc.get c.key).isSome = true
+    · have hw : newKeys (c :: cs) fc ord = newKeys cs fc ord := by simp only [newKeys, hhas, ↓reduceIte]
+      obtain ⟨ha, hb, hkn', hread⟩ := ih fc ord hnd.2 hkn
+      rw [hw]
+      refine ⟨fun k => ?_, ?_, hkn', fun m u hcfg hl hg =>
+        hread m u (fun c' h => hcfg c' (List.mem_cons_of_mem _ h)) hl hg⟩
+      · rw [ha k, cfgGet_cons]
+        by_cases hk : (fc.get k).isSome = true
+        · simp [hk]
+        · have : c.key ≠ k := fun e => hk (e ▸ hhas)
+          simp [hk, this]
+      · rw [hb]
+        have : (fc.get c.key).isNone = false := by
+          cases h : fc.get c.key <;> simp_all
+        simp only [List.filter_cons, this, Bool.false_eq_true, ↓reduceIte]
+    · have hnone : fc.get c.key = none := by
+        cases h : fc.get c.key <;> simp_all
+      have hw : newKeys (c :: cs) fc ord =
+          ((newKeys cs (fc.set c.key c.value c.file) (ord ++ [c.key])).1,
+            (newKeys cs (fc.set c.key c.value c.file) (ord ++ [c.key])).2.1,
+            (if c.file then [kvLine c.key c.value] else []) ++
+              (newKeys cs (fc.set c.key c.value c.file) (ord ++ [c.key])).2.2) := by
+        simp only [newKeys, hnone, Option.isSome_none, Bool.false_eq_true, ↓reduceIte]
+      obtain ⟨ha, hb, hkn', hread⟩ := ih (fc.set c.key c.value c.file) (ord ++ [c.key]) hnd.2
+        (FC.nodup_set hkn _ _ _)
+      rw [hw]
+      refine ⟨fun k => ?_, ?_, hkn', fun m u hcfg hl hg => ?_⟩
+      · rw [ha k, FC.get_set, cfgGet_cons]
+        by_cases hk : k = c.key
+        · subst hk; simp [hnone]
+        · have hk' : ¬ c.key = k := fun e => hk e.symm
+          simp [hk, hk']
+      · rw [hb]
+        simp only [List.filter_cons, hnone, Option.isNone_none, ↓reduceIte, List.map_cons,
+          List.append_assoc, List.cons_append, List.nil_append]
+        congr 2
+        apply congrArg
+        apply List.filter_congr
+        intro c' hc'
+        have hne : c'.key ≠ c.key := fun e => hnd.1 (by
+          simp only [List.mem_map]; exact ⟨c', hc', e⟩)
+        rw [FC.get_set]; simp [hne]
+      · have hgood := hcfg c List.mem_cons_self
+        have hline : ∃ m1, (∀ n, runLines O fn m u n (if c.file then [kvLine c.key c.value] else []) = (m1, u, [])) ∧
+            Link (fc.set c.key c.value c.file) m1 := by
+          unfold CfgGood at hgood
+          by_cases hcf : c.file = true
+          · simp only [hcf, ↓reduceIte] at hgood ⊢
+            exact ⟨m.assign c.key c.value true, fun n => by simp [runLines, hgood.1 m u n],
+              link_set_file hl c.key c.value hgood.2.1⟩
+          · have hcf' : c.file = false := by simpa using hcf
+            simp only [hcf', Bool.false_eq_true, ↓reduceIte]
+            exact ⟨m, fun n => by simp [runLines], link_set_internal_new hl c.key c.value hnone⟩
+        obtain ⟨m1, hm1, hl1⟩ := hline
+        obtain ⟨hg', m', hr, hl'⟩ := hread m1 u (fun c' h => hcfg c' (List.mem_cons_of_mem _ h)) hl1
+          (fcgood_set hg c hgood)
+        refine ⟨hg', m', fun n => ?_, hl'⟩
+        rw [runLines_append]
+        simp only [hm1 n, hr, List.nil_append]
+
+/-! ### the whole block -/
+
+/-- `Writer.order` lists exactly the keys of `Writer.fileConfig`, once each. -/
+structure WInv (w : WState) : Prop where
+  order_nodup : w.order.Nodup
+  keys_nodup : w.fileConfig.keys.Nodup
+  order_iff : ∀ k, k ∈ w.order ↔ (w.fileConfig.get k).isSome
+
+theorem winv_new : WInv WState.new :=
+  ⟨List.nodup_nil, List.nodup_nil, fun k => by simp [WState.new, FC.get]⟩
+
+theorem writeFileConfig_spec (O : Oracles) (fn : Bytes) (w : WState) (config : List Cfg)
+    (hw : WInv w) (hnd : (config.map Cfg.key).Nodup) :
+    (∀ k, (writeFileConfig w config).1.fileConfig.get k = cfgGet config k) ∧
+    WInv (writeFileConfig w config).1 ∧
+    ∀ (m : CMap) (u : UnitMap), (∀ c ∈ config, CfgGood O fn c) → Link w.fileConfig m →
+      FCGood O fn w.fileConfig →
+      FCGood O fn (writeFileConfig w config).1.fileConfig ∧
+      ∃ m', (∀ n, runLines O fn m u n (writeFileConfig w config).2 = (m', u, [])) ∧
+        Link (writeFileConfig w config).1.fileConfig m' := by
+  obtain ⟨ha, hb, hkn1, hread1⟩ := walk_spec O fn config hnd w.order w.fileConfig hw.order_nodup
+    (fun k hk => (hw.order_iff k).1 hk) hw.keys_nodup
+  -- after the walk: exactly the known keys that are still configured, with their new entries
+  have hF1 : ∀ k, (walk config w.order w.fileConfig).2.1.get k =
+      if k ∈ w.order then cfgGet config k else none := by
+    intro k
+    rw [ha k]
+    by_cases hk : k ∈ w.order
+    · simp [hk]
+    · have : w.fileConfig.get k = none := by
+        cases h : w.fileConfig.get k with
+        | none => rfl
+        | some x => exact absurd ((hw.order_iff k).2 (by simp [h])) hk
+      simp [hk, this]
+  by_cases hlen : ((walk config w.order w.fileConfig).2.1.length != config.length) = true
+  · -- new keys
+    obtain ⟨ha2, hb2, hkn2, hread2⟩ := newKeys_spec O fn config
+      (walk config w.order w.fileConfig).2.1 (walk config w.order w.fileConfig).1 hnd hkn1
+    have hfc : ∀ k, (newKeys config (walk config w.order w.fileConfig).2.1
+        (walk config w.order w.fileConfig).1).1.get k = cfgGet config k := by
+      intro k
+      rw [ha2 k, hF1 k]
+      by_cases hk : k ∈ w.order
+      · simp only [hk, ↓reduceIte]
+        cases h : cfgGet config k <;> simp
+      · simp [hk]
+    have hwfc : writeFileConfig w config =
+        ({ first := true,
+           fileConfig := (newKeys config (walk config w.order w.fileConfig).2.1 (walk config w.order w.fileConfig).1).1,
+           order := (newKeys config (walk config w.order w.fileConfig).2.1 (walk config w.order w.fileConfig).1).2.1 },
+          (if (!w.first) = true then [[]] else []) ++ (walk config w.order w.fileConfig).2.2 ++
+            (newKeys config (walk config w.order w.fileConfig).2.1 (walk config w.order w.fileConfig).1).2.2 ++ [[]]) := by
+      simp only [writeFileConfig, hlen, ↓reduceIte]
+    rw [hwfc]
+    refine ⟨hfc, ⟨?_, hkn2, ?_⟩, fun m u hcfg hl hg => ?_⟩
+    · -- order is duplicate free
+      simp only [hb2]
+      rw [hb, List.nodup_append]
+      refine ⟨hw.order_nodup.sublist List.filter_sublist, ?_, ?_⟩
+      · exact (hnd.sublist (List.Sublist.map _ List.filter_sublist))
+      · intro a ha1 b hb1 hab
+        subst hab
+        simp only [List.mem_filter] at ha1
+        simp only [List.mem_map, List.mem_filter] at hb1
+        obtain ⟨c, ⟨_, hcn⟩, hck⟩ := hb1
+        rw [hck, hF1 a] at hcn
+        simp only [ha1.1, ↓reduceIte] at hcn
+        cases h : cfgGet config a <;> simp_all
+    · intro k
+      simp only [hb2, hfc k]
+      rw [hb]
+      simp only [List.mem_append, List.mem_filter, List.mem_map]
+      constructor
+      · rintro (⟨_, h⟩ | ⟨c, ⟨hc, _⟩, hck⟩)
+        · exact h
+        · rw [cfgGet_isSome_iff]; simp only [List.mem_map]; exact ⟨c, hc, hck⟩
+      · intro h
+        by_cases hk : k ∈ w.order
+        · exact Or.inl ⟨hk, h⟩
+        · right
+          rw [cfgGet_isSome_iff] at h
+          simp only [List.mem_map] at h
+          obtain ⟨c, hc, hck⟩ := h
+          refine ⟨c, ⟨hc, ?_⟩, hck⟩
+          rw [hck, hF1 k]; simp [hk]
+    · have hpre : ∀ n, runLines O fn m u n (if (!w.first) = true then [[]] else []) = (m, u, []) := by
+        intro n; split <;> simp [runLines, blank_inert]
+      obtain ⟨hg1, m1, hr1, hl1⟩ := hread1 m u hcfg hl hg
+      obtain ⟨hg2, m2, hr2, hl2⟩ := hread2 m1 u hcfg hl1 hg1
+      refine ⟨hg2, m2, fun n => ?_, hl2⟩
+      rw [runLines_append, runLines_append, runLines_append]
+      simp only [hpre, hr1, hr2, List.nil_append, runLines, blank_inert, List.append_nil]
+  · -- no new keys: the walk already produced the whole configuration
+    have hlen' : (walk config w.order w.fileConfig).2.1.length = config.length := by simpa using hlen
+    have hsub : (walk config w.order w.fileConfig).2.1.keys ⊆ config.map Cfg.key := by
+      intro k hk
+      rw [FC.mem_keys_iff, hF1 k] at hk
+      rw [← cfgGet_isSome_iff]
+      by_cases hko : k ∈ w.order
+      · simpa [hko] using hk
+      · simp [hko] at hk
+    have hcov := subset_of_nodup_length _ _ hkn1 hsub (by
+      simp only [FC.keys, List.length_map]; omega)
+    have hall : ∀ k, (cfgGet config k).isSome → k ∈ w.order := by
+      intro k hk
+      rw [cfgGet_isSome_iff] at hk
+      have := hcov hk
+      rw [FC.mem_keys_iff, hF1 k] at this
+      by_cases hko : k ∈ w.order
+      · exact hko
+      · simp [hko] at this
+    have hfc : ∀ k, (walk config w.order w.fileConfig).2.1.get k = cfgGet config k := by
+      intro k
+      rw [hF1 k]
+      by_cases hko : k ∈ w.order
+      · simp [hko]
+      · have : cfgGet config k = none := by
+          cases h : cfgGet config k with
+          | none => rfl
+          | some x => exact absurd (hall k (by simp [h])) hko
+        simp [hko, this]
+    have hwfc : writeFileConfig w config =
+        ({ first := true, fileConfig := (walk config w.order w.fileConfig).2.1,
+           order := (walk config w.order w.fileConfig).1 },
+          (if (!w.first) = true then [[]] else []) ++ (walk config w.order w.fileConfig).2.2 ++ [] ++ [[]]) := by
+      simp only [writeFileConfig, hlen, Bool.false_eq_true, ↓reduceIte]
+    rw [hwfc]
+    refine ⟨hfc, ⟨?_, hkn1, ?_⟩, fun m u hcfg hl hg => ?_⟩
+    · simp only [hb]; exact hw.order_nodup.sublist List.filter_sublist
+    · intro k
+      simp only [hb, hfc k, List.mem_filter]
+      exact ⟨fun h => h.2, fun h => ⟨hall k h, h⟩⟩
+    · have hpre : ∀ n, runLines O fn m u n (if (!w.first) = true then [[]] else []) = (m, u, []) := by
+        intro n; split <;> simp [runLines, blank_inert]
+      obtain ⟨hg1, m1, hr1, hl1⟩ := hread1 m u hcfg hl hg
+      refine ⟨hg1, m1, fun n => ?_, hl1⟩
+      rw [runLines_append, runLines_append, runLines_append]
+      simp only [hpre, hr1, List.nil_append, runLines, blank_inert, List.append_nil]
+
+/-- When the pre-check of `writeResult` finds nothing to do, the writer state already is the
+record's configuration. -/
+theorem noChange_spec (fc : FC) (config : List Cfg) (hkn : fc.keys.Nodup)
+    (hnd : (config.map Cfg.key).Nodup) (h : needFileConfig fc config = false) :
+    ∀ k, fc.get k = cfgGet config k := by
+  unfold needFileConfig at h
+  have hlen : fc.length = config.length := by
+    by_cases hl : fc.length = config.length
+    · exact hl
+    · simp [hl] at h
+  simp only [hlen, bne_self_eq_false, Bool.false_eq_true, ↓reduceIte, List.any_eq_false] at h
+  have hent : ∀ c ∈ config, fc.get c.key = some (c.value, c.file) := by
+    intro c hc
+    have := h c hc
+    unfold differs at this
+    cases hg : fc.get c.key with
+    | none => simp [hg] at this
+    | some vf =>
+      obtain ⟨v, f⟩ := vf
+      simp only [hg, Bool.not_eq_true, Bool.or_eq_false_iff, Bool.not_eq_false', beq_iff_eq,
+        bne_eq_false_iff_eq] at this
+      rw [this.1, this.2]
+  have hsub : config.map Cfg.key ⊆ fc.keys := by
+    intro k hk
+    simp only [List.mem_map] at hk
+    obtain ⟨c, hc, hck⟩ := hk
+    rw [FC.mem_keys_iff, ← hck, hent c hc]; rfl
+  have hcov := subset_of_nodup_length _ _ hnd hsub (by simp only [FC.keys, List.length_map]; omega)
+  intro k
+  rw [cfgGet_eq]
+  cases hf : config.find? (fun c => c.key == k) with
+  | some c =>
+    have hck : c.key = k := by simpa using List.find?_some hf
+    rw [← hck, hent c (List.mem_of_find?_eq_some hf)]; rfl
+  | none =>
+    have : k ∉ fc.keys := by
+      intro hk
+      have := hcov hk
+      simp only [List.mem_map] at this
+      obtain ⟨c, hc, hck⟩ := this
+      rw [List.find?_eq_none] at hf
+      exact hf c hc (by simpa using hck)
+    rw [FC.mem_keys_iff] at this
+    cases hg : fc.get k <;> simp_all
 
 end C01
